@@ -303,7 +303,7 @@ func runC07(res *Result, d *Driver, tier string, seed uint64) {
 		var cbPid int
 		script := "touch /tmp/ran;exit 0"
 		if fail {
-			script = "sleep 1500;touch /tmp/ran;exit 0" // a refused program must be killed, not left to finish
+			script = "sleep 20000;touch /tmp/ran;exit 0" // a refused program must be killed, not left to finish
 		}
 		t0 := time.Now()
 		spec := RunSpec{Script: script, SyncFunc: func(pid int) error {
@@ -348,7 +348,7 @@ func runC07(res *Result, d *Driver, tier string, seed uint64) {
 		if fail && ran {
 			bad = append(bad, "target ran to completion although the callback refused")
 		}
-		if el := time.Since(t0); fail && el > time.Second {
+		if el := time.Since(t0); fail && el > 10*time.Second {
 			bad = append(bad, fmt.Sprintf("refused run returned only after %v: the program was not killed when the call returned", el))
 		}
 		if fail && r.Status != runner.StatusRunnerError {
